@@ -146,8 +146,10 @@ add("transform.cv2_rodrigues", RO + "cv2_rodrigues", {"r": "rodrigues"}, [{"r": 
 add("transform.rotation_from_up_and_look", "transform._rotation.rotation_from_up_and_look", {"up": "up", "look": "look"},
     [{"up": S3, "look": S3}])
 VW = "transform._viewing."
-add("transform.world_to_view", VW + "world_to_view", {"position": "campos", "target": "pt0"},
-    [{"position": S3, "target": S3}])
+# `up` is not checked by a shape check: a wrong `up` is rejected (ValueError) by vg.cross / by the ragged np.array of
+# the rotation rows; that is not a sequence of shape checks, so the callable is judged by the oracle only (model=False)
+add("transform.world_to_view", VW + "world_to_view", {"position": "campos", "target": "pt0", "up": "up"},
+    [{"position": S3, "target": S3, "up": None}, {"position": S3, "target": S3, "up": S3}])
 add("transform.view_to_orthographic_projection", VW + "view_to_orthographic_projection", {}, [{}],
     kwargs={"width": 4.0, "height": 2.0})
 add("transform.viewport_transform", VW + "viewport_transform", {}, [{}], kwargs={"x_right": 8.0, "y_bottom": 4.0})
@@ -311,7 +313,7 @@ add("Polyline.sliced_at_points", YO + "sliced_at_points", {"start_point": "verte
 add("Polyline.sectioned", YO + "sectioned", {"section_breakpoints": "breaks"}, [{"section_breakpoints": ("m",)}],
     recv="polyline_open", call=meth("sectioned"))
 add("Polyline.point_along_path", YO + "point_along_path", {"fraction_of_total": "frac"},
-    [{"fraction_of_total": ("k",)}], recv="polyline", call=meth("point_along_path"),
+    [{"fraction_of_total": "number"}, {"fraction_of_total": ("k",)}], recv="polyline", call=meth("point_along_path"),
     stack=dict(args=["fraction_of_total"], single=True, empty=True, scalar_single=True))
 
 # ---- CompositeTransform / CoordinateManager -------------------------------------------------------------------------------
@@ -429,6 +431,7 @@ variants("Box.contains", [dict(), dict(atol=0.5)])
 variants("Line.__init__", _prod(assume_normalized=[False, True]))
 variants("Polyline.__init__", _prod(is_closed=[False, True]))
 BY_PUBLIC["transform.cv2_rodrigues"].model = False   # dispatches on r.size == 3 / r.shape == (3, 3), else ValueError
+BY_PUBLIC["transform.world_to_view"].model = False    # `up` is rejected by vg.cross / np.array, not by a shape check
 
 # contracts of the checks done OUTSIDE polliwog (vg), hand-written from site-packages/vg/core.py (trusted)
 EXTERNAL = [("vg.core.apex", ['Check "points" [DAny; DInt 3] None', 'Check "along" [DInt 3] None'])]
@@ -473,6 +476,44 @@ def enumerate_public():
 def missing():
     have = set(BY_PUBLIC)
     return [n for n in enumerate_public() if n not in have]
+
+
+# parameters that are not arrays (flags, scalars, tags, objects, forwarders); every other parameter of a public
+# signature must be an array parameter of its registry entry -- `unregistered_parameters()` fails closed otherwise
+NON_ARRAY = {
+    "normalize", "ret_face_mapping", "ret_t_values", "epsilon", "num_points", "endpoint", "num_subdivisions", "num_samples",
+    "rng", "ret_points", "ret_face_indices", "ret_mapping", "order", "units", "calculate_jacobian", "inverse", "width",
+    "height", "near", "far", "x_right", "y_bottom", "x_left", "y_top", "zoom", "x_factor", "y_factor", "z_factor",
+    "allow_flipping", "ret_inverse_matrix", "scale_factor", "ret_unique_vertices_and_faces", "size:cube", "ret_indices",
+    "percentile", "num_v", "is_closed", "subdivide_by_length", "self", "cls", "direction_decimals", "position_decimals",
+    "decimals", "data", "condition", "inverted", "atol", "assume_normalized", "other", "polylines", "index",
+    "ret_edge_mapping", "max_length", "ret_new_indices", "plane", "ret_edge_indices", "start", "stop",
+    "ret_segment_indices", "ret_distances", "copy_vs", "from_range", "reverse", "discard_z_coord", "treat_input_as_vector",
+    "factor", "from_units", "to_units", "dim", "args", "kwargs", "name:tag_as", "from_tag", "to_tag", "name:__getattr__",
+    "name:__setattr__", "height:triangular_prism", "ret_indices",
+}
+
+
+def unregistered_parameters():
+    import polliwog
+    bad = []
+    for e in R:
+        if e.public.endswith("()"):
+            continue
+        head, name = e.public.split(".")
+        obj = getattr(importlib.import_module("polliwog." + head), name) if head in SUBMODULES else \
+            inspect.getattr_static(getattr(polliwog, head), name)
+        if isinstance(obj, property) or not callable(getattr(obj, "__func__", obj)):
+            continue
+        try:
+            sig = inspect.signature(getattr(obj, "__func__", obj))
+        except (TypeError, ValueError):
+            continue
+        for pname in sig.parameters:
+            if pname in e.params or pname in NON_ARRAY or ("%s:%s" % (pname, name)) in NON_ARRAY:
+                continue
+            bad.append("%s(%s)" % (e.public, pname))
+    return bad
 
 
 def stale():
